@@ -545,28 +545,47 @@ fn c15_pumped(rep: &mut Report, tier: Tier) {
         // one multiplicity changed: the last entry becomes a copy of the first
         let mut mult_changed = entries.clone();
         mult_changed[n - 1] = entries[0].clone();
-        let a = bridge::to_value(&v);
+        // the same entries with every value wrapped in a two-member object; on the other side
+        // the entries are reversed and every other wrapper has its members swapped (so that
+        // entries sharing a key hold values that are equal only up to member order, and rank
+        // differently under the ordered comparison)
+        let wrap = |x: &RV, swap: bool| {
+            let mut m = vec![("a".to_string(), x.clone()), ("z".to_string(), RV::num("0"))];
+            if swap {
+                m.reverse();
+            }
+            RV::Obj(m)
+        };
+        let wrapped = RV::Obj(entries.iter().map(|(k, x)| (k.clone(), wrap(x, false))).collect());
+        let mut wrapped_perm: Vec<(String, RV)> = entries.iter().enumerate().map(|(i, (k, x))| (k.clone(), wrap(x, i % 2 == 1))).collect();
+        wrapped_perm.reverse();
+        let mut wrapped_changed = wrapped_perm.clone();
+        wrapped_changed[n / 2].1 = wrap(&RV::str("changed"), true);
         let nested = |x: &Value| Value::Array(vec![Value::Null, x.clone()]);
-        for (what, other, want) in [
-            ("reversed", RV::Obj(rev), true),
-            ("rotated", RV::Obj(rot), true),
-            ("one value changed", RV::Obj(val_changed), false),
-            ("one key changed", RV::Obj(key_changed), false),
-            ("last entry replaced by a copy of the first", RV::Obj(mult_changed), mult_equal(entries)),
+        for (what, left, other, want) in [
+            ("reversed", v.clone(), RV::Obj(rev), true),
+            ("rotated", v.clone(), RV::Obj(rot), true),
+            ("one value changed", v.clone(), RV::Obj(val_changed), false),
+            ("one key changed", v.clone(), RV::Obj(key_changed), false),
+            ("last entry replaced by a copy of the first", v.clone(), RV::Obj(mult_changed), mult_equal(entries)),
+            ("values wrapped in objects, members swapped in every other one, reversed", wrapped.clone(), RV::Obj(wrapped_perm), true),
+            ("values wrapped in objects, one wrapped value changed", wrapped.clone(), RV::Obj(wrapped_changed), false),
         ] {
+            let a = bridge::to_value(&left);
             let b = bridge::to_value(&other);
             t.evals += 1;
-            let want = want && refmodel::unord::unordered_eq(&v, &other) || (!want && refmodel::unord::unordered_eq(&v, &other));
+            let _ = want;
+            let want = refmodel::unord::unordered_eq(&left, &other);
             for (x, y, dir) in [(&a, &b, "a~b"), (&b, &a, "b~a")] {
                 if x.unordered_eq(y) != want || nested(x).unordered_eq(&nested(y)) != want {
-                    t.violation("", format!("{f:?}({n}) vs {what} ({dir}): unordered_eq != {want}"), json!({"kind": "unordered-pumped", "family": format!("{f:?}"), "n": n, "variant": what}));
+                    t.violation("", format!("{f:?}({n}) vs {what} ({dir}): unordered_eq != {want}"), json!({"kind": "unordered-pair", "family": format!("{f:?}"), "n": n, "variant": what, "a": left.show(), "b": other.show()}));
                 }
             }
         }
         t.nontrivial(&(format!("{f:?}"), n));
         t.outcome(&format!("pumped:{f:?}"));
     });
-    rep.bounds["pumped"] = json!({"objects": count, "cap": tier.pick(513, 2049), "variants": ["reversed", "rotated", "one value changed", "one key changed", "one multiplicity changed"]});
+    rep.bounds["pumped"] = json!({"objects": count, "cap": tier.pick(513, 2049), "variants": ["reversed", "rotated", "one value changed", "one key changed", "one multiplicity changed", "values wrapped in objects with members swapped in every other one", "one wrapped value changed"]});
     rep.absorb(t);
 }
 
